@@ -13,3 +13,6 @@ import Rsbdd.Thm.C05
 import Rsbdd.Thm.C07
 import Rsbdd.Thm.C20
 import Rsbdd.Driver.Main
+import Rsbdd.Thm.C01
+import Rsbdd.Thm.C06
+import Rsbdd.Thm.C09
